@@ -248,6 +248,12 @@ def fixed_scenarios(thorough=False):
     out.append(({'name': 'sampled_backpressure', 'sampled': True, 'noemu': True,
                  'kernels': [{'mode': 'table', 'progs': [['gst', 'end'], ['end'], ['bar', 'end']]}],
                  'wgs': [{'k': 0, 'at': a} for a in (0, 0, 3, 3, 5, 5, 50)], 'mem': env, 'acehold': [[0, 400]]}, False))
+    # 16 wavefronts with three loads in flight each against a CU that may hold only 10 vector accesses in flight
+    # (ComputeUnit.InFlightVectorMemAccessLimit is a public field): instructions wait for room / are admitted piecewise
+    pl = [['gld', 'gld', 'gld', 'w:1:15', 'gst', 'w:0:0', 'bar', 'gld', 'gld', 'w:0:0', 'out', 'w:0:0', 'end']] * 8
+    out.append(({'name': 'inflight_limit_small', 'vlimit': 10, 'kernels': [{'mode': 'table', 'progs': pl}],
+                 'wgs': [{'k': 0, 'at': 0}, {'k': 0, 'at': 0}], 'mem': {'vdef': [150, 400], 'sdef': [10, 30], 'i': [2, 5], 'seed': 4},
+                 'vals': True}, False))
     # full occupancy: 5 groups of 8 wavefronts = 40 wavefronts, barriers in every group
     p8 = [['lst', 'gst', 'w:0:0', 'bar', 'lld', 'gld', 'w:0:0', 'out', 'end']] * 8
     out.append(({'name': 'occupancy40', 'kernels': [{'mode': 'table', 'progs': p8}], 'wgs': [{'k': 0, 'at': 0}] * 6,
